@@ -6,6 +6,7 @@ import (
 	"bufio"
 	"encoding/json"
 	"flag"
+	"hash/fnv"
 	"fmt"
 	"os"
 	"path/filepath"
@@ -37,13 +38,25 @@ type Ctx struct {
 	knownHit    map[string]bool
 	vioSigs     map[string]bool
 	counters    map[string]*int64
+	fast        sync.Map
 	distinct    map[string]map[string]struct{}
 	deadline    time.Time
+	worker      bool
+	shard       int
+	nshards     int
+	workDir     string
+	qseq        int
+	vioRecs     []vioRec
 	capped      atomic.Bool
 }
 
 // New parses flags (--tier, --replay) and the environment (VERIF_TIER, VERIF_SEED).
-func New(id, level string) *Ctx {
+func New(id, level string) *Ctx { return newCtx(id, level, true) }
+
+// NewSingle is New without process sharding (the caller parallelises by itself).
+func NewSingle(id, level string) *Ctx { return newCtx(id, level, false) }
+
+func newCtx(id, level string, sharded bool) *Ctx {
 	tier := flag.String("tier", "", "quick|thorough")
 	replay := flag.String("replay", "", "replay file")
 	budget := flag.Duration("budget", 0, "wall-clock budget (0 = tier default); hitting it ends the run with exhaustive:false, exit 0")
@@ -69,6 +82,15 @@ func New(id, level string) *Ctx {
 	}
 	c.deadline = c.start.Add(b)
 	c.loadKnown()
+	if w := os.Getenv("VERIF_WORKER"); w != "" {
+		fmt.Sscanf(w, "%d/%d", &c.shard, &c.nshards)
+		c.worker = true
+		c.workDir = os.Getenv("VERIF_WORKDIR")
+		return c
+	}
+	if sharded {
+		c.runWorkers() // never returns
+	}
 	return c
 }
 
@@ -116,11 +138,16 @@ func (c *Ctx) loadKnown() {
 
 // Count adds n to a named coverage counter (thread-safe).
 func (c *Ctx) Count(name string, n int64) {
+	if p, ok := c.fast.Load(name); ok {
+		atomic.AddInt64(p.(*int64), n)
+		return
+	}
 	c.mu.Lock()
 	p := c.counters[name]
 	if p == nil {
 		p = new(int64)
 		c.counters[name] = p
+		c.fast.Store(name, p)
 	}
 	c.mu.Unlock()
 	atomic.AddInt64(p, n)
@@ -137,6 +164,11 @@ func (c *Ctx) Get(name string) int64 {
 
 // Distinct records key in the named set; the set size is reported as coverage[name].
 func (c *Ctx) Distinct(name, key string) bool {
+	if len(key) > 16 {
+		h := fnv.New128a()
+		h.Write([]byte(key))
+		key = string(h.Sum(nil))
+	}
 	c.mu.Lock()
 	defer c.mu.Unlock()
 	m := c.distinct[name]
@@ -186,6 +218,19 @@ func (c *Ctx) Violation(sig string, replay interface{}, format string, args ...i
 	msg := fmt.Sprintf(format, args...)
 	c.mu.Lock()
 	defer c.mu.Unlock()
+	if c.worker {
+		c.violations++
+		if len(c.vioRecs) < 20 {
+			for _, r := range c.vioRecs {
+				if r.Sig == sig {
+					return
+				}
+			}
+			rb, _ := json.Marshal(replay)
+			c.vioRecs = append(c.vioRecs, vioRec{sig, rb, msg})
+		}
+		return
+	}
 	if line, ok := c.known[sig]; ok {
 		if !c.knownHit[sig] {
 			c.knownHit[sig] = true
@@ -216,6 +261,9 @@ func (c *Ctx) Violations() int {
 
 // Finish writes the evidence file and exits with the contract's status.
 func (c *Ctx) Finish() {
+	if c.worker {
+		c.finishWorker()
+	}
 	c.mu.Lock()
 	cov := c.cov
 	for k, p := range c.counters {
@@ -267,6 +315,9 @@ func (c *Ctx) Finish() {
 // Parallel runs fn(i) for i in [0,n) on all cores; it stops handing out work once the
 // budget is exhausted and returns the number of items completed.
 func (c *Ctx) Parallel(n int, fn func(i int)) int {
+	if c.worker {
+		return c.parallelWorker(n, fn)
+	}
 	workers := runtime.NumCPU()
 	if workers > n {
 		workers = n
